@@ -101,6 +101,25 @@ func (x *Exec) ghostCallSeq(st *State, cls string, i string) string {
 
 // slotType finds the static type of a call-class slot from declared call classes.
 func (prog *Program) slotType(cls string, ret bool, j int) types.Type {
+	if ct := prog.Externs[cls]; ct != nil {
+		// an extern contract declares the types of its parameters and results
+		vs := ct.Params
+		if ret {
+			vs = ct.Results
+		}
+		if j < len(vs) && vs[j].Type != "" {
+			pk := ct.Pkg
+			if pk == nil {
+				for _, p := range prog.Pkgs {
+					pk = p.Types
+					break
+				}
+			}
+			if t, err := prog.resolveType(vs[j].Type, pk); err == nil {
+				return t
+			}
+		}
+	}
 	if strings.HasPrefix(cls, "yaml.Unmarshal:") {
 		// see mYamlUnmarshal: (string) -> (error, decoded value)
 		switch {
